@@ -6,6 +6,8 @@ the job table is observed at the worker boundary (one event per job: tasks, pid,
 Oracle: multiset equality of primary records, coordinate order, index, declared read groups, --no_rejects.
 """
 import os
+import pysam
+import time
 from collections import Counter, defaultdict
 from vlib.common import Acc, rng, Scratch
 from vlib.sim import frags as F
@@ -24,7 +26,7 @@ ASSUMPTIONS = ['secondary/supplementary alignments are outside the claim (not ge
                'worker schedules are sampled: observed completion orders are counted, not enumerated']
 MIN_NONTRIVIAL = {'quick': 40, 'thorough': 1200}
 REQUIRED_MONITORS = ['history:same_path_reused', 'eject:interval_shrunk', 'lib:dense', 'lib:placed_unmapped_pairs', 'layout:more_than_100_small_contigs', 'paths:rel', 'paths:dotrel', 'lib:secondary_or_supplementary', 'run:single_process', 'run:multiprocess', 'records:compared', 'jobs:observed', 'run:no_rejects', 'layout:large_after_small',
-                     'layout:lone_small_contig', 'lib:unmapped_pairs', 'lib:half_mapped', 'lib:orphans', 'lib:mates_on_two_contigs', 'lib:input_records_with_qcfail_bit', 'lib:hard_clipped_fragments']
+                     'layout:lone_small_contig', 'lib:unmapped_pairs', 'lib:half_mapped', 'lib:orphans', 'lib:mates_on_two_contigs', 'lib:input_records_with_qcfail_bit', 'lib:hard_clipped_fragments', 'input:header_with_read_groups_programs_and_comments', 'lib:input_without_any_record', 'history:stale_index_next_to_the_input']
 SHARD_TIMEOUT = {'quick': 900, 'thorough': 7200}
 
 
@@ -245,7 +247,11 @@ def run_case(case):
     SPECIAL[0] = 0
     acc.count('lib:placed_unmapped_pairs', PLACED[0])
     PLACED[0] = 0
-    if not recs:
+    if case['i'] % 32 == 9:
+        # a file without a single record (an empty lane, a filter that removed everything): nothing in, nothing out, still a sorted, indexed BAM
+        recs, truths = [], {}
+        acc.count('lib:input_without_any_record')
+    elif not recs:
         return acc
     multi = r.random() < 0.6 or style == 'many_small'
     threads = r.randint(1, 4)
@@ -289,7 +295,29 @@ def run_case(case):
                 acc.count('history:same_path_reused')
         ties = r if case['i'] % 2 else None
         acc.count('input:ties_in_random_order', 1 if ties else 0)
-        bam = write_bam(os.path.join(dd, 'in.bam'), gen.refs, recs, tie_rng=ties)
+        header_extra = None
+        if case['i'] % 3 == 0:
+            # the input went through other tools before: its header already declares read groups, programs and comments, and some reads
+            # carry a read group of that earlier life
+            header_extra = {'RG': [{'ID': 'lane1', 'SM': 'bulk', 'PL': 'ILLUMINA'}, {'ID': 'NS500.2.OLD', 'SM': 'oldsample', 'LB': 'oldlib'}],
+                            'PG': [{'ID': 'bwa', 'PN': 'bwa', 'VN': '0.7.17', 'CL': 'bwa mem ref.fa r1.fq r2.fq'}, {'ID': 'samtools', 'PN': 'samtools', 'PP': 'bwa', 'VN': '1.10'}],
+                            'CO': ['user comment: aligned for project X']}
+            for x_ in recs:
+                if r.random() < 0.5 and x_.get('tid', -1) >= -1:
+                    x_['tags'] = dict(x_['tags'], RG=r.choice(['lane1', 'NS500.2.OLD']))
+            acc.count('input:header_with_read_groups_programs_and_comments')
+        stale_index = case['i'] % 8 == 6 and bool(recs)
+        if stale_index:
+            # history: the file was produced and indexed before (in.bam.bai), then regenerated with other content by a tool that names its
+            # index in.bai - the old in.bam.bai is still lying next to it, older than the file
+            write_bam(os.path.join(dd, 'in.bam'), gen.refs, recs[: max(1, len(recs) // 3)])      # the earlier, smaller version of the file
+            os.remove(os.path.join(dd, 'in.bam'))
+            past = time.time() - 3600
+            os.utime(os.path.join(dd, 'in.bam.bai'), (past, past))
+            acc.count('history:stale_index_next_to_the_input')
+        bam = write_bam(os.path.join(dd, 'in.bam'), gen.refs, recs, tie_rng=ties, header_extra=header_extra, index=not stale_index)
+        if stale_index:
+            pysam.index(bam, os.path.join(dd, 'in.bai'))
         out = os.path.join(dd, 'out', 'tagged.bam')
         os.makedirs(os.path.dirname(out))
         # the form of the paths is not under the tool's control: absolute, relative to the working directory, with a leading './'
